@@ -110,9 +110,22 @@ theorem step_indep (P : Params) (t1 t2 : Triple) (a b : List Nat) (op : Op) (m1 
     simp only [step, addFirst_ofList, addLast_ofList, addAt_ofList, addAll_ofList, addAllAt_ofList, splice_ofList,
       spliceAt_ofList, remove_ofList, removeAt_ofList, removeFirst_ofList, removeLast_ofList, removeAll_ofList,
       replaceAt_ofList, reverse_ofList, filterMut_ofList, getFirst_ofList, getLast_ofList, getAt_ofList, toArray_ofList,
-      Mem.allocT_fst, Mem.allocChain_fst, ofList_triple, h] <;>
+      contains_ofList, containsValue_ofList, indexOf_ofList, foreach_ofList, Mem.allocT_fst, Mem.allocChain_fst, ofList_triple, h] <;>
     (repeat' split) <;>
     simp_all [Mem.allocT_sched, Mem.allocChain_sched, Mem.freeT_sched, Mem.freeN_sched]
+
+/-- a step that reports an error status other than `CC_ERR_ALLOC` hands the ledger back untouched -/
+theorem step_error_mem (P : Params) (t1 t2 : Triple) (a b : List Nat) (op : Op) (m : Mem) (e : Stat)
+    (hst : (step P (ofList t1 a, ofList t2 b) op m).1.st = some e) (he : e ≠ .ok) (hea : e ≠ .errAlloc) :
+    (step P (ofList t1 a, ofList t2 b) op m).2.2 = m := by
+  cases op <;>
+    simp only [step, addFirst_ofList, addLast_ofList, addAt_ofList, addAll_ofList, addAllAt_ofList, splice_ofList,
+      spliceAt_ofList, remove_ofList, removeAt_ofList, removeFirst_ofList, removeLast_ofList, removeAll_ofList,
+      replaceAt_ofList, reverse_ofList, filterMut_ofList, getFirst_ofList, getLast_ofList, getAt_ofList, toArray_ofList,
+      contains_ofList, containsValue_ofList, indexOf_ofList, foreach_ofList, ofList_triple] at hst ⊢ <;>
+    (repeat' split) <;> simp_all [Mem.freeN]
+  · by_cases ha : a = [] <;> simp_all [LSeq.removeAll, Mem.freeN]
+  · by_cases ha : a = [] <;> simp_all [LSeq.filterMut, Mem.freeN]
 
 theorem builderResult_indep (t : Triple) (add : List Nat) (m1 m2 : Mem) (h : m1.sched = m2.sched) :
     (builderResult t add m1).1 = (builderResult t add m2).1 ∧ (builderResult t add m1).2.1 = (builderResult t add m2).2.1 ∧
@@ -130,9 +143,22 @@ theorem step_indep (P : Params) (t1 t2 : Triple) (a b : List Nat) (op : Op) (m1 
     simp only [step, addFirst_ofList, addLast_ofList, addAt_ofList, addAll_ofList, addAllAt_ofList, splice_ofList,
       spliceAt_ofList, remove_ofList, removeAt_ofList, removeFirst_ofList, removeLast_ofList, removeAll_ofList,
       replaceAt_ofList, reverse_ofList, filterMut_ofList, getFirst_ofList, getLast_ofList, getAt_ofList, toArray_ofList,
-      Mem.allocT_fst, Mem.allocChain_fst, ofList_triple, h] <;>
+      contains_ofList, containsValue_ofList, indexOf_ofList, foreach_ofList, Mem.allocT_fst, Mem.allocChain_fst, ofList_triple, h] <;>
     (repeat' split) <;>
     simp_all [Mem.allocT_sched, Mem.allocChain_sched, Mem.freeT_sched, Mem.freeN_sched]
+
+/-- a step that reports an error status other than `CC_ERR_ALLOC` hands the ledger back untouched -/
+theorem step_error_mem (P : Params) (t1 t2 : Triple) (a b : List Nat) (op : Op) (m : Mem) (e : Stat)
+    (hst : (step P (ofList t1 a, ofList t2 b) op m).1.st = some e) (he : e ≠ .ok) (hea : e ≠ .errAlloc) :
+    (step P (ofList t1 a, ofList t2 b) op m).2.2 = m := by
+  cases op <;>
+    simp only [step, addFirst_ofList, addLast_ofList, addAt_ofList, addAll_ofList, addAllAt_ofList, splice_ofList,
+      spliceAt_ofList, remove_ofList, removeAt_ofList, removeFirst_ofList, removeLast_ofList, removeAll_ofList,
+      replaceAt_ofList, reverse_ofList, filterMut_ofList, getFirst_ofList, getLast_ofList, getAt_ofList, toArray_ofList,
+      contains_ofList, containsValue_ofList, indexOf_ofList, foreach_ofList, ofList_triple] at hst ⊢ <;>
+    (repeat' split) <;> simp_all [Mem.freeN]
+  · by_cases ha : a = [] <;> simp_all [LSeq.removeAll, Mem.freeN]
+  · by_cases ha : a = [] <;> simp_all [LSeq.filterMut, Mem.freeN]
 end SList
 
 namespace ListHistory
